@@ -10,6 +10,8 @@ package loadfile
 //@ dispatch FileCache *fileCache
 //
 //@ pred wfcache(fc FileCache) = typeis(fc, *fileCache) && fc.(*fileCache) != nil && allocated(fc.(*fileCache)) && fc.(*fileCache).files != nil
+// hasfile(fc, k): the cache fc holds a file under the key k (usable from other packages, which cannot name the field)
+//@ pred hasfile(fc FileCache, k string) = fc != nil && indom(fc.(*fileCache).files, k)
 //@ pred resolved(absDir string, f string) string = ite(fp_isabs(f), f, fp_join2(absDir, f))
 //
 //@ func NewFileCacheUsingContext
@@ -74,6 +76,13 @@ package loadfile
 //@   requires forall i int :: 0 <= i && i < len(fileCaches) ==> fileCaches[i] == nil || wfcache(fileCaches[i])
 //@   ensures [cache-or-error] result1 == nil ==> wfcache(result)
 //@   ensures [error-has-no-cache] result1 != nil ==> result == nil
+//@   ensures [every-file-of-every-merged-cache-is-in-the-result] result1 == nil ==> (forall i int, k string :: 0 <= i && i < len(fileCaches) && fileCaches[i] != nil && \
+//@        indom(fileCaches[i].(*fileCache).files, k) ==> indom(result.(*fileCache).files, k))
+//@   loop 1 invariant cache != nil && allocated(cache) && (-1 <= rangeidx && rangeidx < len(fileCaches) || len(fileCaches) == 0 && rangeidx == -1)
+//@   loop 1 invariant forall i int, k string :: 0 <= i && i <= rangeidx && fileCaches[i] != nil && indom(fileCaches[i].(*fileCache).files, k) ==> indom(cache, k)
+//@   loop 2 invariant cache != nil && allocated(cache) && -1 <= outeridx && outeridx + 1 < len(fileCaches) && fc == fileCaches[outeridx + 1] && fc != nil
+//@   loop 2 invariant forall i int, k string :: 0 <= i && i <= outeridx && fileCaches[i] != nil && indom(fileCaches[i].(*fileCache).files, k) ==> indom(cache, k)
+//@   loop 2 invariant forall k string :: visited(k) ==> indom(cache, k)
 // Two spellings of one directory (a trailing separator, ./ in front) are the same root: the property asks
 // that such caches merge. The code compares the spellings, so this clause fails (known finding).
 //@   ensures [caches-whose-roots-name-the-same-directory-merge] len(fileCaches) == 2 && fileCaches[0] != nil && fileCaches[1] != nil && \
